@@ -55,7 +55,7 @@ def run(prop, tier, seed, replay=None):
     evs = [json.loads(e) for e in events]
     rep.cov["traces_validated_against_impl"] = len(evs)
     rep.cov["evaluations"] = len(evs)
-    nontriv = [e for e in evs if e["ev"] == "so-damage" or (e["ev"] == "so-write" and e["step"] > 0)]
+    nontriv = [e for e in evs if e["ev"] == "so-damage" or (e["ev"] in ("so-write", "so-glue") and e["step"] > 0)]
     rep.cov["distinct_nontrivial"] = vf.distinct_hashes([{k: e[k] for k in e if k != "id"} for e in nontriv])
     rep.cov["rule"] = RULE
     kinds = {}
